@@ -1162,6 +1162,25 @@ func c05Histories() []c05Hist {
 			}
 			return ""
 		}},
+		{"stop-prompt-open-server-fails", func(x *c05F, work string, rng *rand.Rand) string {
+			// the user presses ctrl-C (the stop prompt opens) and does not answer; meanwhile the
+			// server gives up.  The session ends, the prompt is still on the screen.
+			x.f.SetDefaultDownloadPath(work)
+			if e := c05Handshake(x, 'S', "1.1.6", true); e != "" {
+				return e
+			}
+			from := x.rec.length()
+			x.svrOut.Write(c05EncLine("CFG", c05CFG))
+			if !c05WaitBusy(x, 2*time.Second) {
+				return "never entered the transfer state"
+			}
+			x.cliIn.Write([]byte{3})
+			if !x.waitFor('t', []byte("Are you sure"), from, 3*time.Second) {
+				return "the stop prompt was not shown"
+			}
+			x.svrOut.Write(c05EncLine("fail", "server gave up"))
+			return ""
+		}},
 		{"refused-upload", func(x *c05F, work string, rng *rand.Rand) string {
 			// no files given: the chooser (zenity; here a stand-in that exits 1 = Cancel) is asked
 			return c05Handshake(x, 'R', "1.1.6", false)
